@@ -45,15 +45,17 @@ def contains (s pat : S) : Bool := (indexOf pat s).isSome
 def cycle (ch : S) : Nat → S
   | n => ((List.replicate n ch).flatten).take n
 
+/-- the pad string of jlib.Pad: a space when absent or empty -/
+def padChars : Option S → S
+  | some c => if c.isEmpty then [' '] else c
+  | none => [' ']
+
 /-- jlib.Pad(s, width, chars?) -/
 def pad (s : S) (width : Int) (chars : Option S) : S :=
   let padlen : Int := width.natAbs - s.length
   if padlen ≤ 0 then s
   else
-    let ch := match chars with
-      | some c => if c.isEmpty then [' '] else c
-      | none => [' ']
-    let padding := cycle ch padlen.toNat
+    let padding := cycle (padChars chars) padlen.toNat
     if width < 0 then padding ++ s else s ++ padding
 
 /-- strings.Split(s, sep) for a non-empty separator, with an accumulator for the current part -/
